@@ -56,6 +56,27 @@ def _logsoftmax(x, axis):
     return (x - m - np.log(np.sum(np.exp(x - m), axis=axis, keepdims=True))).astype(np.float32)
 
 
+def py_lit_array(value):
+    """A Python literal with the dtype of its own Python type (int -> int64, float -> float32, bool -> bool):
+    what a literal denotes where no tensor operand binds its type -- in particular at every position of a
+    HETEROGENEOUS variadic input (Loop v_initial, Scan initial_state_and_scan_inputs) after the first."""
+    el = value[0] if isinstance(value, (list, tuple)) else value
+    dt = np.bool_ if isinstance(el, bool) else (np.int64 if isinstance(el, int) else np.float32)
+    return np.asarray(value, dtype=dt)
+
+
+def py_lit_type(value):
+    a = py_lit_array(value)
+    return ({np.dtype(np.bool_): Bo, np.dtype(np.int64): I, np.dtype(np.float32): F}[a.dtype], tuple(a.shape))
+
+
+def _coerce(xs):
+    """Operands of a HOMOGENEOUS variadic input: literals take the dtype of the first tensor operand."""
+    isarr = lambda x: isinstance(x, (np.ndarray, np.generic))
+    dt = next(np.asarray(x).dtype for x in xs if isarr(x))
+    return [np.asarray(x) if isarr(x) else np.asarray(x, dtype=dt) for x in xs]
+
+
 def _pick(rng, pool, dtype=None, rank_min=0, pred=None):
     c = [v for v in pool if (dtype is None or v["dtype"] == dtype) and len(v["shape"]) >= rank_min and (pred is None or pred(v))]
     return rng.choice(c) if c else None
@@ -144,7 +165,11 @@ def _binary(name, fn, out=F, lit_ok=True, dt=F):
 
 
 def _f32(fn):
-    return lambda a, b: fn(np.asarray(a, dtype=np.float32), np.asarray(b, dtype=np.float32)).astype(np.float32)
+    """Binary arithmetic in the dtype of the tensor operand (a literal operand is cast to it: type variable T)."""
+    def f(a, b):
+        a, b = _coerce([a, b])
+        return fn(a, b).astype(a.dtype)
+    return f
 
 
 OPS["Add"] = _binary("Add", _f32(np.add))
@@ -184,18 +209,30 @@ OPS["Not"] = dict(gen=_gen_not, np=lambda a, x: np.logical_not(x))
 
 def _variadic(name, fn):
     def gen(rng, pool):
-        v = _pick(rng, pool, F)
+        allow_int = name in ("Max", "Min")
+        v = _pick(rng, pool, None, pred=lambda v: v["dtype"] == F or (allow_int and v["dtype"] == I))
         if v is None:
             return None
-        ws = [v] + _same(rng, pool, v, rng.choice([1, 2]))
-        return [("v", w["id"]) for w in ws], {}, 1, [(F, v["shape"], False)]
-    return dict(gen=gen, np=lambda attrs, *xs: fn(xs).astype(np.float32))
+        n = rng.choice([2, 3, 3, 4])
+        args = [("v", w["id"]) for w in [v] + _same(rng, pool, v, n - 1)]
+        if rng.random() < 0.45:
+            # Python literals at any position (also the first) next to a tensor of another Python-type dtype
+            lits = [2, 0.5, True, -1.5, 3, False] if v["dtype"] == F else [3, True, -2, 0]
+            for pos in rng.sample(range(n), rng.randrange(1, n)):
+                args[pos] = ("lit", rng.choice(lits))
+        return args, {}, 1, [(v["dtype"], v["shape"], False)]
+    return dict(gen=gen, np=lambda attrs, *xs: (lambda ys: fn(ys).astype(ys[0].dtype))(_coerce(xs)))
 
 
-OPS["Max"] = _variadic("Max", lambda xs: np.maximum.reduce(xs))
-OPS["Min"] = _variadic("Min", lambda xs: np.minimum.reduce(xs))
-OPS["Sum"] = _variadic("Sum", lambda xs: np.add.reduce([np.asarray(x, dtype=np.float32) for x in xs]))
-OPS["Mean"] = _variadic("Mean", lambda xs: np.add.reduce([np.asarray(x, dtype=np.float32) for x in xs]) / np.float32(len(xs)))
+def _bc(xs):
+    sh = np.broadcast_shapes(*[np.shape(y) for y in xs])
+    return [np.broadcast_to(x, sh) for x in xs]
+
+
+OPS["Max"] = _variadic("Max", lambda xs: np.maximum.reduce(_bc(xs)))
+OPS["Min"] = _variadic("Min", lambda xs: np.minimum.reduce(_bc(xs)))
+OPS["Sum"] = _variadic("Sum", lambda xs: np.add.reduce(_bc(xs)))
+OPS["Mean"] = _variadic("Mean", lambda xs: np.add.reduce(_bc(xs)) / np.float32(len(xs)))
 
 
 def _gen_where(rng, pool):
@@ -325,6 +362,19 @@ OPS["Flatten"] = dict(gen=_gen_flatten, np=lambda a, x: x.reshape((int(np.prod(x
 
 
 def _gen_concat(rng, pool):
+    if rng.random() < 0.3:
+        # 1-d tensor(s) and Python list literals at any position (cast to the tensor's dtype: homogeneous variadic)
+        v = _pick(rng, pool, None, pred=lambda v: len(v["shape"]) == 1 and v["dtype"] in (F, I))
+        if v is not None:
+            n = rng.choice([2, 3, 4])
+            args = [("v", w["id"]) for w in [v] + _same(rng, pool, v, n - 1)]
+            lits = [[1, 2], [0.5], [True, False], [3], [1.5, -2.0, 0.25]] if v["dtype"] == F else [[1, 2], [7], [True, False]]
+            total = 0
+            for pos in rng.sample(range(n), rng.randrange(1, n)):
+                args[pos] = ("lit", rng.choice(lits))
+            for a in args:
+                total += v["shape"][0] if a[0] == "v" else len(a[1])
+            return args, {"axis": 0}, 1, [(v["dtype"], (total,), False)]
     v = _pick(rng, pool, None, rank_min=1)
     if v is None:
         return None
@@ -335,7 +385,7 @@ def _gen_concat(rng, pool):
     return [("v", w["id"]) for w in ws], {"axis": ax}, 1, [(v["dtype"], tuple(shape), all(w["bounded"] for w in ws))]
 
 
-OPS["Concat"] = dict(gen=_gen_concat, np=lambda a, *xs: np.concatenate(xs, axis=a["axis"]))
+OPS["Concat"] = dict(gen=_gen_concat, np=lambda a, *xs: np.concatenate(_coerce(xs), axis=a["axis"]))
 
 
 def _gen_slice(rng, pool):
@@ -569,7 +619,12 @@ class Gen:
             outs.append(i)
         if not outs:
             outs = [inputs[0][3]]
-        return {"inputs": inputs, "steps": steps, "outputs": list(reversed(outs))}
+        outs = list(reversed(outs))
+        for st in steps:        # results of literals in heterogeneous variadic positions are always observed
+            for i in st.get("force_out", []):
+                if i not in outs:
+                    outs.append(i)
+        return {"inputs": inputs, "steps": steps, "outputs": outs}
 
     def steps(self, pool, scope, n, depth):
         rng = self.rng
@@ -585,7 +640,9 @@ class Gen:
             r = rng.random()
             st = None
             if r < self.p_sub and depth < self.max_depth:
-                st = self.gen_if(pool, scope, depth) if rng.random() < 0.6 else self.gen_loop(pool, scope, depth)
+                q = rng.random()
+                st = (self.gen_if(pool, scope, depth) if q < 0.45 else
+                      self.gen_loop(pool, scope, depth) if q < 0.8 else self.gen_scan(pool, scope, depth))
             elif r < self.p_sub + self.p_fn:
                 st = self.gen_fn(pool, scope)
             if st is None:
@@ -684,6 +741,31 @@ class Gen:
                   subs=[("then_branch", tb), ("else_branch", eb)], ids=[o["id"]], pre=pre)
         return st
 
+    def carried_literals(self, scope, n, counter):
+        """Extra loop-carried / scan state values given as Python literals.  Returns a list of
+        (literal, body input tuple, body-input value, update(kind) -> (steps, returned value))."""
+        rng = self.rng
+        out = []
+        for j in range(rng.choice([0, 1, 1, 2, 3])):
+            lit = rng.choice([0, 3, 1.5, 0.25, True, False, [1, 2], [0.5, 2.0], 7])
+            dt, sh = py_lit_type(lit)
+            vin = self.new(dt, sh, True, exact=True)
+            out.append((lit, (f"st{n}_{j}", dt, sh, vin["id"]), vin))
+        return out
+
+    def update_step(self, scope, vin, counter):
+        """One body step updating a literal-initialised state: int += counter|1, float *= 0.5, bool = not."""
+        dt, sh = vin["dtype"], vin["shape"]
+        r = self.new(dt, sh, True, exact=True)
+        if dt == I:
+            other = ("v", counter["id"]) if counter is not None else ("lit", 1)
+            st = dict(kind="op", scope=list(scope), op="Add", args=[("v", vin["id"]), other], attrs={}, outs=1, subs=[], ids=[r["id"]])
+        elif dt == F:
+            st = dict(kind="op", scope=list(scope), op="Mul", args=[("v", vin["id"]), ("lit", 0.5)], attrs={}, outs=1, subs=[], ids=[r["id"]])
+        else:
+            st = dict(kind="op", scope=list(scope), op="Not", args=[("v", vin["id"])], attrs={}, outs=1, subs=[], ids=[r["id"]])
+        return st, r
+
     def gen_loop(self, pool, scope, depth):
         rng = self.rng
         v = _pick(rng, pool, F)
@@ -694,6 +776,7 @@ class Gen:
         it = self.new(I, (), True, exact=True)
         ci = self.new(Bo, (), True, exact=True)
         carried = self.new(F, v["shape"], False)
+        extras = self.carried_literals(scope, n, it) if rng.random() < 0.6 else []
         local = list(pool) + [carried]
         body = self.steps(local, scope, rng.choice([1, 2]), depth + 1)
         cands = [self.vals[i] for s in body for i in s["ids"] if (self.vals[i]["dtype"], self.vals[i]["shape"]) == (F, v["shape"])]
@@ -704,12 +787,89 @@ class Gen:
             body.append(dict(kind="op", scope=list(scope), op="Neg", args=[("v", carried["id"])], attrs={}, outs=1, subs=[], ids=[ret["id"]]))
         co = self.new(Bo, (), True, exact=True)
         body.append(dict(kind="op", scope=list(scope), op="Identity", args=[("v", ci["id"])], attrs={}, outs=1, subs=[], ids=[co["id"]]))
-        sub = dict(ins=[(f"iter{n}", I, (), it["id"]), (f"cond{n}", Bo, (), ci["id"]), (f"acc{n}", F, v["shape"], carried["id"])],
-                   body=body, rets=[co["id"], ret["id"]], decl=[f"cond_out{n}", f"acc_out{n}" if rng.random() < 0.7 else ""])
-        o = self.new(F, v["shape"], False)
+        # the carried values, in the order of the v_initial actuals: the tensor and the literals at any position
+        slots = [("t", None)] + [("l", e) for e in extras]
+        if extras and rng.random() < 0.4:
+            rng.shuffle(slots)
+        args, ins, rets, decl, out_ids, forced = [("lit", trip), ("none",)], [(f"iter{n}", I, (), it["id"]), (f"cond{n}", Bo, (), ci["id"])], [co["id"]], [f"cond_out{n}"], [], []
+        for kind, e in slots:
+            if kind == "t":
+                args.append(("v", v["id"]))
+                ins.append((f"acc{n}", F, v["shape"], carried["id"]))
+                rets.append(ret["id"])
+                decl.append(f"acc_out{n}" if rng.random() < 0.7 else "")
+                o = self.new(F, v["shape"], False)
+            else:
+                lit, tin, vin = e
+                args.append(("lit", lit))
+                ins.append(tin)
+                st, r = self.update_step(scope, vin, it if vin["shape"] == () or vin["dtype"] == I else None)
+                body.append(st)
+                rets.append(r["id"])
+                decl.append("")
+                o = self.new(vin["dtype"], vin["shape"], True, exact=True)
+                forced.append(o["id"])
+            out_ids.append(o["id"])
+            pool.append(o)
+        sub = dict(ins=ins, body=body, rets=rets, decl=decl)
+        return dict(kind="op", scope=list(scope), op="Loop", args=args, attrs={}, outs=self.outs_spec(len(out_ids)),
+                    subs=[("body", sub)], ids=out_ids, pre=[], force_out=forced, vlit=bool(extras))
+
+    def gen_scan(self, pool, scope, depth):
+        """Scan(states..., scan input; body): a tensor state, Python literals as further states (heterogeneous
+        variadic input, so each literal keeps its own Python-type dtype), one scan input."""
+        rng = self.rng
+        x = _pick(rng, pool, F, rank_min=1)
+        w = _pick(rng, pool, F)
+        if x is None or w is None:
+            return None
+        n = next(self.names)
+        state = self.new(F, w["shape"], False)
+        elem = self.new(F, x["shape"][1:], False, exact=x["exact"])
+        extras = self.carried_literals(scope, n, None)
+        local = list(pool) + [state, elem]
+        body = self.steps(local, scope, rng.choice([0, 1, 2]), depth + 1)
+        cands = [self.vals[i] for s in body for i in s["ids"] if (self.vals[i]["dtype"], self.vals[i]["shape"]) == (F, w["shape"])]
+        if cands:
+            sret = rng.choice(cands)
+        else:
+            sret = self.new(F, w["shape"], False)
+            body.append(dict(kind="op", scope=list(scope), op="Neg", args=[("v", state["id"])], attrs={}, outs=1, subs=[], ids=[sret["id"]]))
+        slots = [("t", None)] + [("l", e) for e in extras]
+        if extras and rng.random() < 0.4:
+            rng.shuffle(slots)
+        args, ins, rets, decl, out_ids, forced = [], [], [], [], [], []
+        for kind, e in slots:
+            if kind == "t":
+                args.append(("v", w["id"]))
+                ins.append((f"state{n}", F, w["shape"], state["id"]))
+                rets.append(sret["id"])
+                decl.append(f"state_out{n}" if rng.random() < 0.5 else "")
+                o = self.new(F, w["shape"], False)
+            else:
+                lit, tin, vin = e
+                args.append(("lit", lit))
+                ins.append(tin)
+                st, r = self.update_step(scope, vin, None)
+                body.append(st)
+                rets.append(r["id"])
+                decl.append("")
+                o = self.new(vin["dtype"], vin["shape"], True, exact=True)
+                forced.append(o["id"])
+            out_ids.append(o["id"])
+            pool.append(o)
+        args.append(("v", x["id"]))
+        ins.append((f"elem{n}", F, x["shape"][1:], elem["id"]))
+        so = self.new(F, x["shape"][1:], False)
+        body.append(dict(kind="op", scope=list(scope), op="Mul", args=[("v", elem["id"]), ("lit", rng.choice([2.0, -1, 0.5]))], attrs={}, outs=1, subs=[], ids=[so["id"]]))
+        rets.append(so["id"])
+        decl.append(f"scan_out{n}")
+        o = self.new(F, x["shape"], False)
+        out_ids.append(o["id"])
         pool.append(o)
-        return dict(kind="op", scope=list(scope), op="Loop", args=[("lit", trip), ("none",), ("v", v["id"])], attrs={}, outs=self.outs_spec(1),
-                    subs=[("body", sub)], ids=[o["id"]], pre=[])
+        sub = dict(ins=ins, body=body, rets=rets, decl=decl)
+        return dict(kind="op", scope=list(scope), op="Scan", args=args, attrs={"num_scan_inputs": 1}, outs=self.outs_spec(len(out_ids)),
+                    subs=[("body", sub)], ids=out_ids, pre=[], force_out=forced, vlit=bool(extras))
 
 
 def flatten_pre(steps):
@@ -757,7 +917,19 @@ def directed_traces():
                     op([], "Add", [("v", 3), ("lit", 1.0)], {}, 1, [4]),
                     op(["a.b"], "Add", [("v", 4), ("lit", 1)], {}, ["sum"], [5])],
           "outputs": [5], "types": {i: (F, (3,)) for i in range(6)}}
-    return [t1, t2]
+    # Python literals as later actuals of a heterogeneous variadic input (Loop v_initial): the int literal 0
+    # carried next to a float tensor keeps int64, the sum 0+0+1+2 stays the integer 3
+    body = [op([], "Add", [("v", 3), ("lit", 0.125)], {}, 1, [5]),
+            op([], "Add", [("v", 4), ("v", 1)], {}, 1, [6]),
+            op([], "Identity", [("v", 2)], {}, 1, [7])]
+    loop = dict(kind="op", scope=[], op="Loop", args=[("lit", 3), ("none",), ("v", 0), ("lit", 0)], attrs={}, outs=2,
+                subs=[("body", dict(ins=[("it", I, (), 1), ("cnd", Bo, (), 2), ("acc", F, (3,), 3), ("k", I, (), 4)],
+                                    body=body, rets=[7, 5, 6], decl=["cnd_out", "", ""]))], ids=[8, 9], vlit=True)
+    t3 = {"inputs": [("x0", F, (3,), 0)], "steps": [loop, op([], "Max", [("lit", 2), ("v", 8), ("lit", True)], {}, 1, [10])],
+          "outputs": [8, 9, 10],
+          "types": {0: (F, (3,)), 1: (I, ()), 2: (Bo, ()), 3: (F, (3,)), 4: (I, ()), 5: (F, (3,)), 6: (I, ()), 7: (Bo, ()),
+                    8: (F, (3,)), 9: (I, ()), 10: (F, (3,))}}
+    return [t1, t2, t3]
 
 
 def renumber(t, vals):
@@ -1076,7 +1248,8 @@ def np_replay(trace, feeds):
             elif s["op"] == "Loop":
                 sb = dict(s["subs"])["body"]
                 trip = arg(s["args"][0], env)
-                carried = [arg(a, env) for a in s["args"][2:]]
+                # v_initial is a heterogeneous variadic input: a literal keeps the dtype of its Python type
+                carried = [(lambda z: np.asarray(z) if isinstance(z, (np.ndarray, np.generic)) else py_lit_array(z))(arg(a, env)) for a in s["args"][2:]]
                 cond = True
                 k = 0
                 while cond and k < trip:
@@ -1090,6 +1263,20 @@ def np_replay(trace, feeds):
                     carried = outs[1:]
                     k += 1
                 res = tuple(carried)
+            elif s["op"] == "Scan":
+                sb = dict(s["subs"])["body"]
+                actual = [(lambda z: np.asarray(z) if isinstance(z, (np.ndarray, np.generic)) else py_lit_array(z))(arg(a, env)) for a in s["args"]]
+                states, seq = actual[:-1], actual[-1]
+                scan_rows = []
+                for k in range(seq.shape[0]):
+                    e2 = dict(env)
+                    for (n, d, sh, i), v in zip(sb["ins"], states + [seq[k]]):
+                        e2[i] = v
+                    run(sb["body"], e2)
+                    outs = [e2[i] for i in sb["rets"]]
+                    states = outs[:-1]
+                    scan_rows.append(outs[-1])
+                res = tuple(states) + (np.stack(scan_rows, axis=0),)
             else:
                 vals = [arg(a, env) for a in s["args"]]
                 while vals and vals[-1] is None:
